@@ -315,3 +315,263 @@ Print Assumptions C06_forced_display_setting_wins.
 Example C06_source_display_setting_witness :
   MDs.setting_for MDs.EkAttemptWillRetry None (Some MDs.DNever) MDs.DImmediate MDs.DImmediate = MDs.DNever.
 Proof. reflexivity. Qed.
+
+(* ================================================================ fourth round (docs/notes/Gen.md, fourth part) *)
+
+(* ---- the whole of TestFilter::filter_match (C13, C04) *)
+
+(* C13 "shards partition the tests that pass all other filters": TestFilter::filter_match, regenerated from the source
+   as a whole -- filter_ignored_mismatch, then ResolvedFilterPatterns::name_match (skip patterns override; SkipOnly with
+   patterns answers MatchWithPatterns; Patterns needs a positive match) and filter_expression_match (no filtersets:
+   MatchEmptyPatterns; some filterset matches: MatchWithPatterns, none: Mismatch(Expression); then the default-set bound)
+   combined with the name reason first, then filter_partition_mismatch, else Matches -- is Model/FilterFull.v's
+   [filter_match_full], the function C13's and C04's listing theorems are about, for every filter, partitioner state,
+   test name and ignored flag. The answers of the matchers (HashSet::contains, AhoCorasick::is_match,
+   Filterset::matches_test, Partitioner::test_matches) are inputs of the generated function; the lemma instantiates them
+   with the model's answers ([d]: any value at a position the source does not ask). Letting an arm of the (name,
+   expression) match answer Some(Matches), so that the partition stage is skipped, falsifies it. *)
+Theorem C13_source_filter_match :
+  forall (f : MFF.tfilter) cur name ign tb tn ecx d,
+    gfmatch_to_model
+      (G.TestFilter_filter_match (filter_view f) tb tn ecx (bound_of_model (MFF.tf_bound f)) ign
+         (skip_exact_of d (MFF.tf_pats f) name) (skip_match_of d (MFF.tf_pats f) name)
+         (exact_of d (MFF.tf_pats f) name) (pattern_match_of d (MFF.tf_pats f) name)
+         (set_matches_of_model (MFF.tf_ets f) name) (MFF.tf_dt f name)
+         (partition_matches_of d (MFF.tf_pb f) cur name)) =
+    fst (MFF.filter_match_full f cur name ign).
+Proof. exact gen_filter_match_is_model. Qed.
+Print Assumptions C13_source_filter_match.
+
+(* C04 "a test is selected iff it passes every stage": the same tie, for the stages before the partition: what the
+   source answers when no partitioner is configured is [Mismatch r] when the model's first four stages ([pre_full]:
+   ignored, name, expression / default set) reject with reason [r], and [Matches] otherwise. (Properties/Gen.v
+   C04_source_filter_match ties the stage ORDER with the three sub-stage verdicts as inputs; here the sub-stages are
+   translated too.) *)
+Theorem C04_glue_source_filter_match :
+  forall (f : MFF.tfilter) name ign tb tn ecx d,
+    MFF.tf_pb f = None ->
+    gfmatch_to_model
+      (G.TestFilter_filter_match (filter_view f) tb tn ecx (bound_of_model (MFF.tf_bound f)) ign
+         (skip_exact_of d (MFF.tf_pats f) name) (skip_match_of d (MFF.tf_pats f) name)
+         (exact_of d (MFF.tf_pats f) name) (pattern_match_of d (MFF.tf_pats f) name)
+         (set_matches_of_model (MFF.tf_ets f) name) (MFF.tf_dt f name) d) =
+    match MFF.pre_full f name ign with Some r => MFl.Mismatch r | None => MFl.Matches end.
+Proof.
+  intros f name ign tb tn ecx d Hpb.
+  pose proof (gen_filter_match_is_model f 0 name ign tb tn ecx d) as H.
+  unfold partition_matches_of in H. rewrite Hpb in H. rewrite H.
+  unfold MFF.filter_match_full, MFl.filter_match. rewrite Hpb. destruct (MFF.pre_full f name ign); reflexivity.
+Qed.
+Print Assumptions C04_glue_source_filter_match.
+
+(* C13, read off the generated function alone (no model): when a partitioner is configured, the source selects nothing
+   the partitioner did not accept -- whichever of MatchEmptyPatterns / MatchWithPatterns the name and expression stages
+   answered, for every value of every other input. *)
+Theorem C13_partition_gates_source_filter_match :
+  forall self tb tn ecx bd ign p1 p2 p3 p4 pm pd pp tok,
+    G.TestFilter_partitioner self = Some tok ->
+    G.TestFilter_filter_match self tb tn ecx bd ign p1 p2 p3 p4 pm pd pp = G.FilterMatch_Matches -> pp = true.
+Proof. exact gen_filter_match_needs_partition. Qed.
+Print Assumptions C13_partition_gates_source_filter_match.
+
+(* the model's facts, from the property text: a test that passes all other filters is partition-matched whatever kind
+   of match accepted it; a rejected test does not reach the partitioner (the counter does not move); two hash shards
+   never both select a test *)
+Theorem C13_accepted_test_is_partitioned :
+  forall f cur name ign b,
+    MFF.tf_pb f = Some b ->
+    MFl.filter_ignored (MFF.tf_ri f) ign = None ->
+    MNF.nm_accepts (MNF.rname_match (MFF.tf_pats f) name) = true ->
+    MNF.nm_accepts (MFF.filter_expression_match (MFF.tf_ets f) (MFF.tf_dt f) (MFF.tf_bound f) name) = true ->
+    fst (MFF.filter_match_full f cur name ign) =
+    if fst (MFl.part_match b cur name) then MFl.Matches else MFl.Mismatch MFl.MPartition.
+Proof. exact PFG.accepted_test_is_partitioned. Qed.
+Print Assumptions C13_accepted_test_is_partitioned.
+
+Theorem C13_rejected_test_skips_partition :
+  forall f cur name ign r,
+    MFF.pre_full f name ign = Some r -> MFF.filter_match_full f cur name ign = (MFl.Mismatch r, cur).
+Proof. exact PFG.rejected_test_skips_partition. Qed.
+Print Assumptions C13_rejected_test_skips_partition.
+
+Theorem C13_hash_shards_disjoint_for_accepted :
+  forall f f' cur cur' name ign b b',
+    MFF.tf_pb f = Some b -> MFF.tf_pb f' = Some b' ->
+    MFl.pb_kind b = MFl.PHash -> MFl.pb_kind b' = MFl.PHash -> MFl.pb_total b = MFl.pb_total b' ->
+    MFl.pb_shard b <> MFl.pb_shard b' -> 1 <= MFl.pb_shard b -> 1 <= MFl.pb_shard b' ->
+    fst (MFF.filter_match_full f cur name ign) = MFl.Matches ->
+    fst (MFF.filter_match_full f' cur' name ign) = MFl.Matches -> False.
+Proof. exact PFG.hash_shards_disjoint_for_accepted. Qed.
+Print Assumptions C13_hash_shards_disjoint_for_accepted.
+
+(* non-vacuity: with a positional pattern AND a filterset that both match, shard 2 of 2 (count) rejects the first test *)
+Example C13_source_filter_match_witness :
+  let f := MFF.builder_new MFl.RIDefault (Some {| MFl.pb_kind := MFl.PCount; MFl.pb_shard := 2; MFl.pb_total := 2 |})
+             (MNF.Patterns [[97]] [] [] []) [fun _ => true] (fun _ => true) MFF.BAll in
+  fst (MFF.filter_match_full f 0 [97] false) = MFl.Mismatch MFl.MPartition /\
+  G.TestFilter_filter_match (filter_view f) 0 String.EmptyString 0 G.FilterBound_All false false false false true
+    (fun _ => true) true false = G.FilterMatch_Mismatch G.MismatchReason_Partition.
+Proof. vm_compute. split; reflexivity. Qed.
+
+(* ---- one line of a setup script's environment file (C18) *)
+
+(* C18 "the environment file is accepted iff every line has '=' and no key before the first '=' begins with NEXTEST":
+   one turn of the loop of parse_env_file (runner/script_helpers.rs), from `let Some(line) = line` to the end of the loop
+   body, regenerated from the source -- split the line at the first '='; no '=': EnvFileParse; a key that starts with
+   "NEXTEST": EnvFileReservedKey; else insert (key, value) -- is Model/EnvFileLine.v's [line_step] on the bytes of the
+   line, for every line. Reserving only NEXTEST itself and NEXTEST_... falsifies it (NEXTESTX=1). How the lines are read
+   (tokio's Lines) and the BTreeMap stay with C18's differential stage (hook H6). *)
+Theorem C18_source_env_file_line :
+  forall line, line_result_to_model (G.env_file_line line) = Some (MEL.line_step (bytes_of_string line)).
+Proof. exact gen_env_file_line_is_model. Qed.
+Print Assumptions C18_source_env_file_line.
+
+(* ... and the loop of Model/Scripts.v, the function C18's environment-file theorems are about, makes exactly the
+   regenerated step for every line *)
+Theorem C18_loop_source_env_file_line :
+  forall line rest acc,
+    MSc.parse_lines (bytes_of_string line :: rest) acc =
+    match G.env_file_line line with
+    | inl (k, v) => MSc.parse_lines rest (MSc.env_insert (bytes_of_string k) (bytes_of_string v) acc)
+    | inr _ => None
+    end.
+Proof. exact gen_env_file_loop_is_model. Qed.
+Print Assumptions C18_loop_source_env_file_line.
+
+(* the model's facts, from the property text: one reserved line makes the whole file unacceptable wherever it stands;
+   an accepted file has only lines `k=v` whose key does not begin with NEXTEST *)
+Theorem C18_reserved_line_rejects_file :
+  forall ls1 l ls2, MEL.line_step l = inr MEL.LineReservedKey -> MSc.parse_env (ls1 ++ l :: ls2) = None.
+Proof. exact PEL.reserved_line_rejects_file. Qed.
+Print Assumptions C18_reserved_line_rejects_file.
+
+Theorem C18_accepted_file_lines :
+  forall ls m l, MSc.parse_env ls = Some m -> In l ls ->
+                 exists k v, MEL.line_step l = inl (k, v) /\ BS.is_prefix MSc.NEXTEST k = false.
+Proof. exact PEL.accepted_file_lines. Qed.
+Print Assumptions C18_accepted_file_lines.
+
+(* non-vacuity: NEXTESTX=1 is reserved, NEXT=1 is not, a line without '=' is a parse error -- on the generated step *)
+Module C18Lit.
+  Import Strings.String.
+  Definition reserved : string := "NEXTESTX=1".
+  Definition plain : string := "NEXT=1=2".
+  Definition plain_key : string := "NEXT".
+  Definition plain_value : string := "1=2".
+  Definition no_equals : string := "NEXTEST".
+End C18Lit.
+Example C18_source_env_file_line_witness :
+  G.env_file_line C18Lit.reserved = inr G.SetupScriptOutputError_EnvFileReservedKey /\
+  G.env_file_line C18Lit.plain = inl (C18Lit.plain_key, C18Lit.plain_value) /\
+  G.env_file_line C18Lit.no_equals = inr G.SetupScriptOutputError_EnvFileParse.
+Proof. vm_compute. repeat split. Qed.
+
+(* ---- the sections of a unit's captured output (C16) *)
+
+(* C16 "with split capture standard output and standard error are shown as two sections, each when it is non-empty (or
+   when empty streams are displayed)": the streams UnitOutputReporter::write_child_output hands to
+   write_test_single_output_with_description and the headers it writes with writeln!, in order, each under the condition
+   it is written, regenerated from the source, are the streams and the headers of Model/DisplaySections.v's sections --
+   for every reporter, every output (a stream is its buffer and whether it is empty) and every triple of headers.
+   Folding the two blocks into one loop that stops at the first stream that is not shown (map_while), or nesting the
+   stderr block inside the stdout block, falsifies it. What is written INSIDE a section (indentation, highlighting,
+   ANSI stripping) stays with C16's differential and real-run stages. *)
+Theorem C16_source_display_sections :
+  forall u o ho he hc,
+    G.display_sections u o = map fst (model_sections u o ho he hc) /\
+    G.display_section_headers u o ho he hc = map snd (model_sections u o ho he hc).
+Proof. exact gen_display_sections_is_model. Qed.
+Print Assumptions C16_source_display_sections.
+
+(* the model's facts, from the property text: standard error is shown on its own account -- a non-empty standard error
+   is a section whatever standard output is (missing, empty and skipped, or shown); likewise standard output; an empty
+   stream is hidden unless empty streams are displayed; at most two sections, standard output first *)
+Theorem C16_nonempty_stderr_shown :
+  forall (stream header : Type) (is_empty : stream -> bool) de out e ho he,
+    is_empty e = false -> In (e, he) (MSe.split_sections stream header is_empty de out (Some e) ho he).
+Proof. exact PSe.nonempty_stderr_shown. Qed.
+Print Assumptions C16_nonempty_stderr_shown.
+
+Theorem C16_nonempty_stdout_shown :
+  forall (stream header : Type) (is_empty : stream -> bool) de o err ho he,
+    is_empty o = false -> In (o, ho) (MSe.split_sections stream header is_empty de (Some o) err ho he).
+Proof. exact PSe.nonempty_stdout_shown. Qed.
+Print Assumptions C16_nonempty_stdout_shown.
+
+Theorem C16_empty_stream_hidden :
+  forall (stream header : Type) (is_empty : stream -> bool) s h,
+    is_empty s = true -> MSe.stream_section stream header is_empty false (Some s) h = [].
+Proof. exact PSe.empty_stream_hidden. Qed.
+Print Assumptions C16_empty_stream_hidden.
+
+Theorem C16_split_sections_order :
+  forall (stream header : Type) (is_empty : stream -> bool) de out err ho he,
+    exists a b, MSe.split_sections stream header is_empty de out err ho he = a ++ b /\
+                (a = [] \/ exists o, out = Some o /\ a = [(o, ho)]) /\
+                (b = [] \/ exists e, err = Some e /\ b = [(e, he)]).
+Proof. exact PSe.split_order. Qed.
+Print Assumptions C16_split_sections_order.
+
+(* ... carried over to the source: a captured, non-empty standard error is handed to the writer whatever standard
+   output is *)
+Theorem C16_stderr_independent_source_display_sections :
+  forall u so e ho he hc,
+    G.ChildSingleOutput_is_empty e = false ->
+    In e (G.display_sections u (G.ChildOutput_Split (G.mk_ChildSplitOutput so (Some e)))) /\
+    In he (G.display_section_headers u (G.ChildOutput_Split (G.mk_ChildSplitOutput so (Some e))) ho he hc).
+Proof.
+  intros u so e ho he hc H.
+  destruct (gen_display_sections_is_model u (G.ChildOutput_Split (G.mk_ChildSplitOutput so (Some e))) ho he hc) as [H1 H2].
+  rewrite H1, H2. cbn [model_sections G.ChildSplitOutput_stdout G.ChildSplitOutput_stderr].
+  pose proof (PSe.nonempty_stderr_shown _ N G.ChildSingleOutput_is_empty
+                (G.UnitOutputReporter_display_empty_outputs u) so e ho he H) as Hin.
+  split; [exact (in_map fst _ _ Hin) | exact (in_map snd _ _ Hin)].
+Qed.
+Print Assumptions C16_stderr_independent_source_display_sections.
+
+(* non-vacuity: empty stdout (skipped), non-empty stderr: exactly the stderr section *)
+Example C16_source_display_sections_witness :
+  G.display_sections (G.mk_UnitOutputReporter None None false)
+    (G.ChildOutput_Split (G.mk_ChildSplitOutput (Some (G.mk_ChildSingleOutput 1 true)) (Some (G.mk_ChildSingleOutput 2 false))))
+  = [G.mk_ChildSingleOutput 2 false] /\
+  G.display_section_headers (G.mk_UnitOutputReporter None None false)
+    (G.ChildOutput_Split (G.mk_ChildSplitOutput (Some (G.mk_ChildSingleOutput 1 true)) (Some (G.mk_ChildSingleOutput 2 false))))
+    10 20 30 = [20].
+Proof. vm_compute. split; reflexivity. Qed.
+
+(* ---- the order of the environment sources of a test process (C15) *)
+
+(* C15 "nextest's own variables win": the calls TestCommand::new makes on the Command, in order (apply_package_env
+   followed; the condition `the package has a build-script output directory` is an input), regenerated from the source:
+   every call is one Model/EnvOrder.v knows ([EnvClassify.of_call]: config [env], OUT_DIR and the build script's
+   rustc-env are the user's / the build's; NEXTEST*, __NEXTEST*, CARGO_*, apply_ld_dyld_env are nextest's own), every
+   user / build source comes before every source of nextest's own, both kinds occur, and the [env] table of the cargo
+   configuration is applied first of all (OUT_DIR and the build script's variables win over it). Moving the OUT_DIR /
+   rustc-env block after apply_package_env, or before the [env] table, falsifies it. The VALUES written stay with C15's differential stage (hook H5). *)
+Theorem C15_source_env_order :
+  forall c,
+    let sources := map EnvClassify.of_call (G.test_command_env c) in
+    MEO.all_classified sources = true /\
+    MEO.user_before_nextest sources = true /\
+    existsb MEO.is_user sources = true /\
+    existsb (fun s => match s with MEO.SrcNextest => true | _ => false end) sources = true /\
+    EnvClassify.first_writer (G.test_command_env c) = Some EnvClassify.config_env_call.
+Proof. exact gen_env_order_is_model. Qed.
+Print Assumptions C15_source_env_order.
+
+(* the model's fact, from the property text (Command::env keeps the last value written): with that order a variable
+   nextest provides has nextest's value in the test process although a user / build source wrote it too *)
+Theorem C15_nextest_value_wins :
+  forall k ws,
+    MEO.user_before_nextest (map snd ws) = true ->
+    In (k, MEO.SrcNextest) ws ->
+    (forall s, In (k, s) ws -> s = MEO.SrcUser \/ s = MEO.SrcNextest) ->
+    MEO.winner k ws = Some MEO.SrcNextest.
+Proof. exact PEO.nextest_value_wins. Qed.
+Print Assumptions C15_nextest_value_wins.
+
+(* ... and the order matters: a build source applied after nextest's own would win *)
+Example C15_build_after_nextest_loses :
+  MEO.user_before_nextest [MEO.SrcNextest; MEO.SrcUser] = false /\
+  MEO.winner 7 [(7, MEO.SrcNextest); (7, MEO.SrcUser)] = Some MEO.SrcUser.
+Proof. exact PEO.build_after_nextest_loses. Qed.
